@@ -17,6 +17,10 @@ pub enum Case {
     Write { cfg: WCfg, off: u16, slice: Vec<u8>, write_all: bool, after: Vec<WOp> },
     /// reader: a history containing io::Read calls
     Read(RCase),
+    /// writer: `off` bits, then io::Write::write_vectored with these slices, then a 7-bit sentinel. The call may
+    /// accept any prefix of the concatenation (the std default takes the first non-empty slice): whatever count k
+    /// it reports, exactly the first k bytes must be in the stream
+    WriteV { e: En, w: Wd, off: u8, slices: Vec<Vec<u8>> },
 }
 
 pub const DEF: PropDef = PropDef {
@@ -26,7 +30,8 @@ operations): the call must report the whole slice and the stream must contain by
 stream's bit order (so at byte-aligned offsets the memory image contains the slice verbatim, which is checked directly as well). Enumerated \
 completely: every slice length 0..=40 x every offset 0..=2W x every writer word x both endiannesses; plus proptest-generated longer slices (up \
 to 600 bytes) interleaved with bit operations and io::Write::flush calls (which pad like BitWrite::flush and must emit nothing when nothing is \
-pending: enumerated on a fresh writer, after whole words, after partial words, twice in a row, always followed by further writes). Reader cases: (reader configuration, image, history with io::Read calls): every buffer length \
+pending: enumerated on a fresh writer, after whole words, after partial words, twice in a row, always followed by further writes); io::Write::write_vectored with several slices (whatever count it reports, exactly that prefix of the \
+concatenation must be in the stream). Reader cases: (reader configuration, image, history with io::Read calls): every buffer length \
 0..=40 x every offset 0..=2W+1 x {plain, after a look-ahead refill, data ending right after the requested bytes} x every reader (buffered \
 u8..u64, unbuffered) x backends, enumerated completely, plus random histories; the bytes \
 obtained must be the next 8*len stream bits grouped in stream order and the count must be the buffer length. Oracle: bit model. Non-trivial: \
@@ -84,6 +89,63 @@ pub fn check_case(c: &Case, env: &Env) -> CheckResult {
             if slice.is_empty() {
                 o.label("empty_slice");
             }
+        }
+        Case::WriteV { e, w, off, slices } => {
+            use dsi_bitstream::prelude::*;
+            let off = *off as usize;
+            let concat: Vec<u8> = slices.iter().flatten().copied().collect();
+            let mut got: Option<(usize, Vec<u8>)> = None;
+            macro_rules! go {
+                ($E:ty, $W:ty) => {{
+                    let mut bw = std::mem::ManuallyDrop::new(BufBitWriter::<$E, _>::new(MemWordWriterVec::<$W, Vec<$W>>::new(Vec::new())));
+                    let _ = bw.write_bits(0x1555_5555_5555_5555u64 & mask64(off), off);
+                    let ios: Vec<std::io::IoSlice> = slices.iter().map(|s| std::io::IoSlice::new(s)).collect();
+                    match std::io::Write::write_vectored(&mut *bw, &ios) {
+                        Ok(k) => {
+                            let _ = bw.write_bits(0x2B, 7);
+                            let bw = std::mem::ManuallyDrop::into_inner(bw);
+                            if let Ok(be) = bw.into_inner() {
+                                got = Some((k, crate::adapters::bytes_of::<$W>(&be.into_inner())));
+                            }
+                        }
+                        Err(er) => fail!("io_write_vectored/err", "write_vectored returned Err({})", er),
+                    }
+                }};
+            }
+            macro_rules! go_e {
+                ($W:ty) => {
+                    match e {
+                        En::BE => go!(BE, $W),
+                        En::LE => go!(LE, $W),
+                    }
+                };
+            }
+            match w {
+                Wd::U8 => go_e!(u8),
+                Wd::U16 => go_e!(u16),
+                Wd::U32 => go_e!(u32),
+                Wd::U64 => go_e!(u64),
+                Wd::U128 => go_e!(u128),
+            }
+            let Some((k, bytes)) = got else { fail!("io_write_vectored/into_inner", "into_inner failed") };
+            if k > concat.len() || (k == 0 && !concat.is_empty()) {
+                fail!("io_write_vectored/count", "write_vectored reported {} bytes for slices totalling {}", k, concat.len());
+            }
+            let mut m = vcore::BitVec::new();
+            m.push_field((0x1555_5555_5555_5555u64 & mask64(off)) as u128, off, *e);
+            for &b in &concat[..k] {
+                m.push_field(b as u128, 8, *e);
+            }
+            m.push_field(0x2B, 7, *e);
+            m.pad_to(w.bits());
+            if bytes != m.to_bytes(*e) {
+                fail!(
+                    format!("io_write_vectored/bytes/w{}", w.bits()),
+                    "write_vectored of {} slices ({} bytes) at bit {} reported {} bytes, but the stream does not hold exactly those: got {}, expected {}",
+                    slices.len(), concat.len(), off, k, hex(&bytes), hex(&m.to_bytes(*e))
+                );
+            }
+            o.nt("vectored_write");
         }
         Case::Read(rc) => {
             let (n, _b) = check_rcase(rc, env)?;
@@ -156,6 +218,19 @@ fn run(ctx: &Ctx, env: &Env) -> Stats {
                 part.finish()
             }));
         }
+        jobs.push(Box::new(move |ctx: &Ctx| {
+            let mut part = Part::new(ctx, format!("write_vectored/{}", e.name()), "io::Write::write_vectored with 0..=3 slices of length 0..=9 at several offsets, every writer word", true);
+            let f = |c: &Case| check_case(c, env);
+            for w in Wd::WRITER {
+                for off in [0u8, 3, 8, 13] {
+                    for lens in [vec![], vec![0usize], vec![3], vec![0, 4], vec![2, 5], vec![5, 0, 1], vec![9, 8, 3], vec![1, 1, 1]] {
+                        let slices: Vec<Vec<u8>> = lens.iter().enumerate().map(|(i, &l)| data(l, (i * 31 + l) as u64 + off as u64)).collect();
+                        part.check(&Case::WriteV { e, w, off, slices }, &f);
+                    }
+                }
+            }
+            part.finish()
+        }));
         for r in RKind::ALL {
             for backend in [RBackend::InfBorrowed, RBackend::Strict, RBackend::AdapterCursor, RBackend::VecReadback] {
                 jobs.push(Box::new(move |ctx: &Ctx| {
